@@ -565,8 +565,11 @@ func runC08(env *core.Env) {
 			{"positiveInt", func(v string) (any, bool) { i, ok := atoi(v); return &dtpb.PositiveInt{Value: uint32(i)}, ok && i > 0 && i <= 2147483647 }},
 			{"unsignedInt", func(v string) (any, bool) { i, ok := atoi(v); return &dtpb.UnsignedInt{Value: uint32(i)}, ok && i >= 0 && i <= 2147483647 }},
 			{"decimal", func(v string) (any, bool) { return &dtpb.Decimal{Value: v}, true }},
+			// a System value handed over as a one-item collection (the caller's slice: reading it must not change it)
+			{"integer-collection", func(v string) (any, bool) { i, ok := atoi(v); return system.Collection{system.Integer(int32(i))}, ok && i >= -2147483648 && i <= 2147483647 }},
+			{"decimal-collection", func(v string) (any, bool) { d, err := system.ParseDecimal(v); return system.Collection{d}, err == nil && strings.Contains(v, ".") }},
 		}
-		forms := []string{"%x.abs()", "%x.ceiling()", "%x.floor()", "%x.round()", "%x.round(1)", "%x.truncate()", "%x.sqrt()", "%x.exp()", "%x.ln()", "%x.log(10)", "%x.log(2)", "%x.power(2)", "%x.power(0.5)", "2.power(%x)", "10.log(%x)", "-%x", "%x + 1", "%x * %x", "%x / 4", "%x div 3", "%x mod 3", "1 / %x"}
+		forms := []string{"%x.abs()", "%x.ceiling()", "%x.floor()", "%x.round()", "%x.round(1)", "%x.truncate()", "%x.sqrt()", "%x.exp()", "%x.ln()", "%x.log(10)", "%x.log(2)", "%x.power(2)", "%x.power(0.5)", "2.power(%x)", "10.log(%x)", "-%x", "%x + 1", "%x * %x", "%x / 4", "%x div 3", "%x mod 3", "1 / %x", "%x + -%x", "%x - -%x", "-%x + %x", "(-%x) * (-%x)", "-%x.abs() + %x.abs()", "(-%x) = %x or (-%x) != %x"}
 		for _, v := range []string{"0", "1", "2", "4", "16", "100", "7", "-4", "2147483647", "0.0", "2.25", "6.25", "0.5", "-2.5", "1.0", "16.00", "1e0"} {
 			for _, c := range carriers {
 				el, ok := c.elem(v)
@@ -574,7 +577,11 @@ func runC08(env *core.Env) {
 					continue
 				}
 				var sys system.Any
-				if _, isDec := el.(*dtpb.Decimal); isDec {
+				_, isDec := el.(*dtpb.Decimal)
+				if c.name == "decimal-collection" {
+					isDec = true
+				}
+				if isDec {
 					d, err := system.ParseDecimal(v)
 					if err != nil {
 						continue
@@ -637,6 +644,8 @@ func runC08(env *core.Env) {
 	// exactly representable transcendental cases and both-sides-rooted operands
 	for _, c := range []struct{ src, want string }{
 		{"4.sqrt()", "2"}, {"16.0.sqrt()", "4"}, {"2.power(10)", "1024"}, {"2.5.power(2)", "6.25"}, {"0.exp()", "1"}, {"1.ln()", "0"}, {"100.log(10)", "2"}, {"8.log(2)", "3"},
+		{"0.99999999999999999999 div 1.0", "0"}, {"19.9999999999999999999 div 10.0", "1"}, {"2147483647.99999999999999999 div 1.0", "2147483647"}, {"(-0.99999999999999999999) div 1.0", "0"}, {"(-19.9999999999999999999) div 10.0", "-1"},
+		{"0.99999999999999999999 mod 1.0", "0.99999999999999999999"}, {"19.9999999999999999999 mod 10.0", "9.9999999999999999999"}, {"5.9999999999999999999 div 2", "2"}, {"5.9999999999999999999 div 3", "1"}, {"0.29999999999999999999 div 0.1", "2"},
 		{"2.power(31)", "EMPTY-OR-ERROR"}, {"2.power(-1)", "0.5|EMPTY-OR-ERROR"}, {"(-1).sqrt()", "EMPTY-OR-ERROR"},
 	} {
 		n++
